@@ -7,7 +7,7 @@ export PYTHONPATH=/verif PYTHONHASHSEED=0 PYTHONWARNINGS=ignore
 ( cd coq
   { echo "-Q theories Coba"; find theories -name '*.v' | LC_ALL=C sort; } > _CoqProject
   coq_makefile -f _CoqProject -o Makefile > /dev/null
-  timeout 3000 make -j16 2>&1 | grep -v '^COQC\|^COQDEP\|^CLEAN' || true
+  if ! timeout 3000 make -j16 > make.log 2>&1; then grep -B2 -A14 'Error' make.log | head -80; echo "setup FAILED (coq build)"; exit 1; fi
   test -f theories/Extract.vo
   if [ -f model.ml ]; then mv -f model.ml model.mli ../ocaml/; fi
   if [ ! -f ../ocaml/model.ml ]; then rm -f theories/Extract.vo; make theories/Extract.vo >/dev/null; mv -f model.ml model.mli ../ocaml/; fi )
